@@ -279,7 +279,16 @@ pub fn worker_main(args: &[String]) -> i32 {
                         Err(e) => mark(&format!("E {} {}", id, e)),
                     }
                     drop(t);
-                    recs.push(TxnRec { id, ops, immediate, ok: res.is_ok(), err: res.err().map(|e| e.to_string()).unwrap_or_default(), first_seq: 0 });
+                    let mut err_text = res.as_ref().err().map(|e| e.to_string()).unwrap_or_default();
+                    if res.is_err() {
+                        // C15: a fresh reader right after the failed commit must not see its marker key
+                        if let Ok(rd) = tree.begin_with_mode(Mode::ReadOnly) {
+                            if let Ok(Some(_)) = rd.get(&marker_key(id)) {
+                                err_text.push_str(" [VISIBLE-AFTER-ERROR]");
+                            }
+                        }
+                    }
+                    recs.push(TxnRec { id, ops, immediate, ok: res.is_ok(), err: err_text, first_seq: 0 });
                     if w.sync_every > 0 && r.below(w.sync_every as u64) == 0 {
                         mark("Y"); // sync invoked
                         if tree.flush_wal(true).is_ok() {
